@@ -38,6 +38,7 @@ structure Tables where
   exeVarTypeOptional : Bool
   opFallbackAnyName : Bool
   fieldPosAfterLookahead : Bool
+  opErrPosAfterLookahead : Bool
   leafErrNulls : Bool
   fastSliceCopies : Bool
 
